@@ -878,7 +878,10 @@ static void inline make_inflate_huff_code_header(struct inflate_huff_code_small 
 static int
 header_matches_pregen(struct inflate_state *state)
 {
-#ifndef ISAL_STATIC_INFLATE_TABLE
+#if !defined(ISAL_STATIC_INFLATE_TABLE) || (IGZIP_HIST_SIZE <= 8192)
+        /* The pre-generated decode tables in static_inflate.h belong to the default
+         * header of the large window build; the small window builds (including
+         * LONGER_HUFFTABLE) have a different hufftables_default */
         return 0;
 #else
         uint8_t *in, *hdr;
